@@ -51,7 +51,24 @@ func c15Profiles(tier string) []Profile {
 			}
 			return append(ls, snapLetters(w, 1, false)...)
 		}}
-	return []Profile{p.Profile(fmt.Sprintf("every history of length <= %d over Set/Delete/Evict, GetItem (both value modes), Exist, MinItem, ascending visit, descending Ex visit with early stop, iterator with early close, Len, block and random visits, RemoveCollection, SetCollection (new/existing), Flush, Reopen, Snapshot / read / close of a snapshot, then closing snapshots and store in both orders; counting ItemAlloc/ItemAddRef/ItemDecRef callbacks: no count below zero, every item handed to a visitor or the caller and every cached item reachable from an open handle has a positive count, and after closing everything all counts are zero; an item whose count reaches zero is scrubbed (key and value overwritten) and any later reference to it is reported, so a use after release shows as a wrong result", d))}
+	conc := &WorldScenario{Name: "reader-vs-overwrite", Mon: harness.Monitors{RefCount: true}, Keys: [][]byte{kA, kB},
+		Desc: "reference counting beside a writer: reader [GetItem(a) with value, release] || mutator [Set(a) overwrite, Delete(b)] on a flushed and partly evicted collection; counting callbacks with scrubbing of released items",
+		Setup: func(w *harness.World) {
+			w.SetCollection("x", "nil")
+			w.SetItem("x", kA, 2, bs("a0"))
+			w.SetItem("x", kB, 1, bs("b0"))
+			w.Flush()
+			w.Evict("x")
+		},
+		Threads: []func(w *harness.World){
+			func(w *harness.World) { w.GetItemRaw("x", kA, true) },
+			func(w *harness.World) { w.SetItem("x", kA, 2, bs("a1")); w.Delete("x", kB) },
+		},
+		Finish: func(w *harness.World) {
+			w.CheckRefLive()
+			w.CloseAllAndCheckRefs(true)
+		}}
+	return []Profile{conc.Profile(2), p.Profile(fmt.Sprintf("every history of length <= %d over Set/Delete/Evict, GetItem (both value modes), Exist, MinItem, ascending visit, descending Ex visit with early stop, iterator with early close, Len, block and random visits, RemoveCollection, SetCollection (new/existing), Flush, Reopen, Snapshot / read / close of a snapshot, then closing snapshots and store in both orders; counting ItemAlloc/ItemAddRef/ItemDecRef callbacks: no count below zero, every item handed to a visitor or the caller and every cached item reachable from an open handle has a positive count, and after closing everything all counts are zero; an item whose count reaches zero is scrubbed (key and value overwritten) and any later reference to it is reported, so a use after release shows as a wrong result", d))}
 }
 
 func init() {
